@@ -2,6 +2,7 @@ import Driver.Basic
 import Driver.Levels
 import Driver.CodecSuite
 import Driver.DBSuite
+import Driver.HistSuite
 
 open Driver in
 def main (args : List String) : IO UInt32 := do
@@ -15,4 +16,5 @@ def main (args : List String) : IO UInt32 := do
   | ["levels"] => loop stdin stdout levelsStep lvInit; pure 0
   | ["codec"] => loop stdin stdout codecStep (); pure 0
   | ["db"] => loop stdin stdout dbStep dbInit; pure 0
+  | ["hist"] => loop stdin stdout histStep (); pure 0
   | _ => IO.eprintln "usage: driver <suite>"; pure 2
